@@ -714,6 +714,8 @@ class Emitter:
                 # a bracket-aware idiom rewrite (python function body -> (body, count)); `repl` is its
                 # human-readable description for the evidence
                 body, k = pat(body)
+                if k == 0 and opt and opt[0]:
+                    continue  # an idiom that need not be present (pure desugaring)
                 if k == 0:
                     raise Inconclusive(f"lost anchor: {fnq}: idiom rewrite `{repl}` matched nothing")
                 self.local_rewrites.append({"fn": fnq, "pattern": repl, "replacement": "(see vx/specs)", "why": why, "count": k})
